@@ -7,10 +7,53 @@ from .p_poker import walk as poker_walk, diff_obs, ALL_FIELDS
 from . import p_gin
 
 
+def run_deal(t):
+    """a deal made by the library's own helpers under an injected shuffle that permutes BY POSITION whatever list it is
+    given (like a real seeded shuffle): the outcome is a function of the permutation only -- not of earlier deals"""
+    import card_utils.deck.utils as du
+    import card_utils.games.poker.util as pu
+    import card_utils.games.gin.utils as gu
+    idx = t["perm"]
+
+    class Fake:
+        def shuffle(_, l):
+            l[:] = [l[i] for i in idx] if len(l) == len(idx) else l[::-1]
+
+        def __getattr__(_, name):
+            if name.startswith("__"):
+                raise AttributeError(name)
+            return getattr(random.Random(len(idx)), name)
+    old = du.random
+    du.random = Fake()
+    try:
+        h = t["helper"]
+        if h == "deck":
+            out = {"deck": list(du.random_deck())}
+        elif h == "hands":
+            rest, hands = pu.deal_random_hands(t["nh"], t["nc"])
+            out = {"rest": list(rest), "hands": [list(x) for x in hands]}
+        else:
+            g = gu.new_game(t["n"])
+            out = {k: list(v) for k, v in g.items()}
+    except Exception as e:
+        out = {"exc_deal": type(e).__name__}
+    finally:
+        du.random = old
+    return {"deal": out, "steps": []}
+
+
+def iter_trace(t):
+    if t["kind"] == "deal":
+        yield run_deal(t)
+    elif t["kind"] == "poker":
+        yield from poker.iter_ops(t)
+    else:
+        yield from gin.iter_ops(t)
+
+
 def run_trace(t):
-    it = poker.iter_ops(t) if t["kind"] == "poker" else gin.iter_ops(t)
     rec = None
-    for rec in it:
+    for rec in iter_trace(t):
         pass
     return rec
 
@@ -22,8 +65,8 @@ def global_inventory():
         if not (name == "card_utils" or name.startswith("card_utils.")) or mod is None:
             continue
         for k, v in sorted(vars(mod).items()):
-            if k.startswith("_") and k != "_cards_rds":
-                continue
+            if k.startswith("__"):
+                continue        # (module-level names with ONE underscore are ordinary private globals: scratch lists, caches)
             if isinstance(v, (list, dict, set, frozenset, tuple)) and getattr(v, "__module__", None) is None:
                 inv[f"{name}.{k}"] = canon(v)
             if isinstance(v, type) and getattr(v, "__module__", "") == name:
@@ -157,6 +200,11 @@ class C16(Prop):
                     t = gin.play(rng, gin.gen_game(rng), probes=1, max_ops=40)
                     t["kind"] = "gin"
                 traces.append(t)
+            for _ in range(rng.randrange(0, 3)):
+                perm = list(range(52)); rng.shuffle(perm)
+                traces.insert(rng.randrange(len(traces) + 1),
+                              {"kind": "deal", "helper": rng.choice(["deck", "hands", "gin"]), "perm": perm, "nh": rng.randrange(1, 7),
+                               "nc": rng.randrange(1, 5), "n": rng.choice([7, 10, 3]), "ops": []})
             order = list(range(len(traces))); rng.shuffle(order)
             if rng.random() < 0.6:
                 # adversarial history: "sibling" hands that share cards with a target hand under different roles (same
@@ -215,7 +263,7 @@ class C16(Prop):
         out["batched"] = res
         # (c) interleaved step by step
         rng = random.Random(case["iseed"])
-        its = [poker.iter_ops(t) if t["kind"] == "poker" else gin.iter_ops(t) for t in traces]
+        its = [iter_trace(t) for t in traces]
         cur = [None] * len(traces)
         live = list(range(len(traces)))
         while live:
@@ -234,7 +282,8 @@ class C16(Prop):
         return out
 
     def request(self, case, io):
-        return {"op": "multi", "reqs": [poker.request(t) if t["kind"] == "poker" else gin.request(t) for t in case["traces"]]}
+        return {"op": "multi", "reqs": [poker.request(t) if t["kind"] == "poker" else gin.request(t) if t["kind"] == "gin"
+                                        else {"op": "rank5", "hands": []} for t in case["traces"]]}
 
     def judge(self, case, io, mo):
         why_o = []; why_c = []
@@ -249,6 +298,8 @@ class C16(Prop):
             if "exc" in f:
                 why_c.append(f"trace {i}: harness error {f['exc']}")
                 continue
+            if t["kind"] == "deal":
+                continue        # the dealing helpers' own contract is C20's; here only: same permutation, same deal
             if t["kind"] == "poker":
                 evs = poker_walk(t, f, mo[i])
                 for e in evs:
